@@ -13,7 +13,7 @@ ID = "C16"
 RULE = ("Cases: exhaustively every tree shape with <=5 features (<=6 in thorough) incl. the root-only model; random "
         "boolean_any trees up to 60 (quick) / 200 (thorough) features incl. chains, stars and wide groups; the shipped "
         "FaMa/Betty corpus read by XMLReader (quick: files of <=200 features; thorough: all 1299 up to 20000 features) "
-        "with the reference computed on an independent walk of the XML. Every feature of each model is the argument of "
+        "with the reference computed on an independent walk of the XML; histories of 1-3 structural edits applied in place to one model object, analysed after every step. Every feature of each model is the argument of "
         "the ancestors operation. Non-trivial: depth >= 3 and a parent mixing mandatory and non-mandatory relations, or "
         "the root-only model; distinct = distinct canonical JSON (corpus: distinct file).")
 ASSUMPTIONS = ["definitions are computed on the spec / on vf/fama.py's independent reading of the XML",
@@ -145,6 +145,12 @@ def check(case):
     model = _caterpillar(*case["caterpillar"]) if "caterpillar" in case else case["model"]
     fm = build.build(model)
     check_model(fm, model, out)
+    for step, ed in enumerate(case.get("edits", [])):
+        # the same object, edited in place and analysed again: the definitions apply to the model as it is now
+        _bool.morph_checked(fm, ed["model"])
+        sub_out = []
+        check_model(fm, ed["model"], sub_out)
+        out += [(k.replace("C16.", "C16.after-in-place-edit.", 1), f"step {step} ({ed['label']}): {d}") for k, d in sub_out]
     return out
 
 
@@ -278,6 +284,9 @@ SUBS = [
     Sub("shapes", check, enum=enum_shapes, nontrivial=nontrivial, classes=classes, exhaustive=True, min_nontrivial=0.0),
     Sub("random-trees", check, gen=lambda tier: big_trees(200 if tier == "thorough" else 60), nontrivial=nontrivial,
         classes=classes, n={"quick": 400, "thorough": 2000}, essential=["size:>50", "root-only"] , min_nontrivial=0.005),
+    Sub("edit-histories", check, gen=lambda tier: _bool.edit_histories(S.BOOLEAN_ANY, 12), nontrivial=lambda case: True,
+        classes=lambda case: {"edit:" + e["label"] for e in case["edits"]}, n={"quick": 150, "thorough": 1500},
+        essential=["edit:move", "edit:add-feature", "edit:remove-leaf"]),
     Sub("deep-chains", check, enum=enum_deep, nontrivial=nontrivial, classes=classes, shards={"quick": 6, "thorough": 6}),
     Sub("rounding-boundaries", check, enum=enum_rounding, nontrivial=lambda case: True,
         classes=lambda case: {"rounding-boundary"}, exhaustive=False),
